@@ -4,7 +4,8 @@ Bounded exhaustive enumeration (E1) of
     simulation {Elastic 2D/3D, Thermal 1D/2D/3D, Beam Euler-Bernoulli / Timoshenko 1D/2D/3D}
   x element type (19 Lagrange types where applicable; SEG2..5 for beams)
   x mesh {2 elements, 3-cell strip, k=2 grid, gmsh unstructured, affinely mapped (+ thorough extras)}
-  x material x thickness {0.37, 1} x density {2.5, 1, per-element array}     (beams: x member direction)
+  x material x thickness {0.37, 1} x density {2.5, 1, per-element array}     (beams: x member direction
+                                                                              x node order of the segments {fwd, rev, alt})
 on the real implementation; the oracle works on the dense K, C, M of `simu.Get_K_C_M_F()`:
 
   K : symmetric; eigenvalues >= -1e-10 lmax; K R = 0 for the analytically built rigid-body / constant modes R
@@ -54,6 +55,11 @@ BEAM_MESHES = {1: ["two", "strip3", "gmsh", "twosec"], 2: ["two", "strip3", "gms
 # "negx0": the member lies ON the x axis and points towards -x (no offset: the mesh stays embedded in one dimension, which the library keys on)
 # "incl_far": an inclined member far from the origin (coordinates ~ 3e4: a frame written in millimetres)
 BEAM_DIRS = {1: ["x", "negx0"], 2: ["x", "y", "negx", "incl", "negx0", "incl_far"], 3: ["x", "y", "z", "incl", "negx0", "incl_far"]}
+# node order of the segments of the hand-made beam meshes relative to the line of their member (a mesh does not promise an order:
+# imported / hand-made / renumbered meshes): "fwd" every segment runs along its member line, "rev" every segment runs against it,
+# "alt" every second segment of the mesh runs against it.  The gmsh letter is meshed from the member lines themselves (always "fwd").
+BEAM_ORIENTS = ["fwd", "rev", "alt"]
+BEAM_ORIENT_DIRS = {1: ["x", "negx0"], 2: ["x", "incl", "negx0"], 3: ["x", "incl", "negx0"]}   # quick tier: directions combined with rev / alt
 SECTIONS = {"A": (0.6, 0.8), "B": (0.9, 0.5)}  # stocky on purpose: keeps EI/L^3 within 1e-6 of EA/L (conditioning)
 NVERT = {"SEG": 2, "TRI": 3, "QUAD": 4, "TETRA": 4, "HEXA": 8, "PRISM": 6}
 
@@ -68,6 +74,9 @@ def _cont_meshes(et, tier):
         # domain is unchanged.  Rigid motions stay in the isoparametric space (zero strain at every quadrature point whatever the
         # rule) and the mass rules integrate det J exactly for every type (checked: degree of det J <= degree of the mass rule).
         m.append("curved")
+    if Z.topo(et) in ("HEXA", "PRISM"):
+        # frusta (ZooMesh.tapered): straight edges, planar faces, NOT affine - the Jacobian varies inside a first-order wedge / brick as well
+        m.append("taper")
     if tier == "thorough":
         m += ["mapped_grid"]
         t = Z.topo(et)
@@ -110,6 +119,14 @@ def cases(tier, seed):
                     factors["dir"] = BEAM_DIRS[d] + ["incl2", "negy"]
                 for c in deviations(factors, None):
                     out.append({"kind": "beam", "sim": sim, "theory": th, "elemType": f"SEG{n}", **c})
+                # node order of the segments against / partly against the member line (hand-made meshes), default density
+                ofac = {"mesh": [m for m in BEAM_MESHES[d] if m != "gmsh"],
+                        "dir": BEAM_ORIENT_DIRS[d] if tier == "quick" else factors["dir"],
+                        "rho": RHO[:1] if tier == "quick" else RHO, "orient": BEAM_ORIENTS[1:]}
+                if "yaxis" in factors:
+                    ofac["yaxis"] = factors["yaxis"]
+                for c in deviations(ofac, None):
+                    out.append({"kind": "beam", "sim": sim, "theory": th, "elemType": f"SEG{n}", **c})
     return out
 
 
@@ -121,14 +138,18 @@ def describe(tier, seed):
                 "normalised low/high spectrum of K and M, translational mass)",
         "exhaustive": True,
         "bound": ("continuum/thermal: per (simulation, element type) the default configuration and every configuration differing from it "
-                  "in ONE of {mesh, material, thickness, density}; beams: full product mesh x direction x density"
+                  "in ONE of {mesh, material, thickness, density}; beams: full product mesh x direction x density with the segments "
+                  "running along their member line (fwd), plus node order {rev, alt} x hand-made mesh x direction {x, incl, negx0} "
+                  "at the default density"
                   if tier == "quick" else
                   "full product of all factors (continuum: mesh x material x thickness x density; beams: mesh x direction x density "
-                  "[x y-axis choice in 3D]); mixed meshes with scalar density"),
+                  "[x y-axis choice in 3D] x node order of the segments {fwd, rev, alt} (rev, alt on the hand-made meshes)); "
+                  "mixed meshes with scalar density"),
         "alphabet": {"simulations": len(CONT_SIMS) + 2 * len(BEAM_DIMS), "sim_x_elemType_pairs": n_c + 24,
                      "meshes_continuum": len(CONT_MESHES) + (4 if tier == "thorough" else 0), "meshes_beam": 5,
                      "materials_elastic2d": 6, "materials_elastic3d": 5, "materials_thermal": 2, "thickness": 2, "density": 3,
-                     "beam_directions_1d": 2, "beam_directions_2d": 6 + (2 if tier == "thorough" else 0), "beam_directions_3d": 6},
+                     "beam_directions_1d": 2, "beam_directions_2d": 6 + (2 if tier == "thorough" else 0), "beam_directions_3d": 6,
+                     "beam_segment_node_order": len(BEAM_ORIENTS)},
         "assumptions": [
             "meshes are connected, without orphan nodes, >= 2 elements (verified per case; otherwise skipped and counted)",
             "materials are SPD with condition number <= ~50; zero-energy threshold 1e-10*lmax, cases with an eigenvalue in "
@@ -427,6 +448,9 @@ def build_cont_mesh(et, letter):
     if letter == "curved":
         zc = build_cont_mesh(et, "grid2")[0].curved()
         return zc, zc.build()
+    if letter == "taper":
+        zc = Z.template_3d(ets, k=2).tapered(0.3)
+        return zc, zc.build()
     if letter == "mapped":
         base = "two"
     elif letter == "mapped_grid":
@@ -698,6 +722,7 @@ def _run_beam(case):
 
     sim, theory, et, meshl, dirl, rhol = case["sim"], case["theory"], case["elemType"], case["mesh"], case["dir"], case["rho"]
     yax = case.get("yaxis", "auto")
+    orient = case.get("orient", "fwd")
     d = BEAM_DIMS[sim]
     Q, off = _beam_motion(d, dirl)
     layout = _beam_layout(d, meshl)
@@ -726,7 +751,10 @@ def _run_beam(case):
             if graded:
                 s = s ** 1.7
             for e in range(n):
-                Z._add_elem(bank, groups, et, [a + s[e] * (b - a), a + s[e + 1] * (b - a)])
+                ends = [a + s[e] * (b - a), a + s[e + 1] * (b - a)]
+                if orient == "rev" or (orient == "alt" and len(member_of) % 2 == 1):
+                    ends.reverse()   # the same segment, its nodes listed from the other end
+                Z._add_elem(bank, groups, et, ends)
                 member_of.append(m)
         member_of = np.array(member_of)
         zm = Z.ZooMesh(np.array(bank.coords), {et: np.array(groups[et], dtype=int)}, {}, f"BEAM[{et},{meshl}]", {})
@@ -749,8 +777,10 @@ def _run_beam(case):
     K, C, M, F = simu.Get_K_C_M_F()
     K, M = todense(K), todense(M)
     dofn = {1: 1, 2: 3, 3: 6}[d]
-    label = f"{sim}/{theory}/{et}/{meshl}/dir={dirl}/yaxis={yax}/{rhol}"
+    label = f"{sim}/{theory}/{et}/{meshl}/dir={dirl}/yaxis={yax}/{rhol}" + (f"/segments={orient}" if orient != "fwd" else "")
     bkey = dict(sim=sim, theory=theory, elemType=et, mesh=meshl, dir=dirl)
+    if orient != "fwd":
+        bkey["orient"] = orient
     if "yaxis" in case:
         bkey["yaxis"] = case["yaxis"]
     if K.shape != (zm.Nn * dofn,) * 2 or M.shape != K.shape:
@@ -765,6 +795,6 @@ def _run_beam(case):
     ms = simu.mass
     if ms is not None and abs(float(ms) - expected) > TOL_MASS * expected:
         v.append(viol("mass_property", f"{label}: simu.mass = {float(ms)!r}, expected {expected!r}", **mkey))
-    sig = [sim, theory, et, meshl, dirl, ik.get("nullity"), _spec_sig(ik["lam"]) if "lam" in ik else None,
+    sig = [sim, theory, et, meshl, dirl] + ([orient] if orient != "fwd" else []) + [ik.get("nullity"), _spec_sig(ik["lam"]) if "lam" in ik else None,
            _spec_sig(im["lam"]) if "lam" in im else None, np.array([im.get("mass", 0.0)])]
     return _result(v, fp(*[s for s in sig if s is not None]), f"null{ik.get('nullity')}", skipped=ik.get("skipped"))
